@@ -82,6 +82,10 @@ class C01(Check):
                     if m == 3:        # the same target split into two residues (atoms keep their molecule-wide order)
                         for place in ('near', 'between'):
                             yield {'n': n, 'edges': edges, 'geo': geo, 'm': m, 'place': place, 'tres': 2}
+                    if m == 3 and geo in ('generic', 'col_z'):
+                        # every second reference atom is a hydrogen BY NAME (H2, H4): an anchor like any other
+                        for place in ('near', 'between'):
+                            yield {'n': n, 'edges': edges, 'geo': geo, 'm': m, 'place': place, 'hnames': 1}
 
     # ------------------------------------------------------------------
     def check_case(self, case, R, seed):
@@ -120,7 +124,7 @@ class C01(Check):
         rpos = xm.ref_positions(geo, n, seed)
         tpos = xm.target_positions(rpos, anch, m, place, seed,
                                    margin=xm.MARGIN * xm.SMALL.get(geo, 1.0))
-        ref = self._edited_ref(case, seed) if 'add' in case else xm.ref_molecule(n, edges, case.get('tres', 1))
+        ref = self._edited_ref(case, seed) if 'add' in case else xm.ref_molecule(n, edges, case.get('tres', 1), case.get('hnames', 0))
         ref.atoms_positions = rpos.copy()
         tgt = xm.tgt_molecule(m, case.get('tres', 1))
         tgt.atoms_positions = tpos.copy()
